@@ -276,36 +276,69 @@ def _tail(shorthand, degrees, bass, fold):
     return r
 
 
-def encode(lab, reduce_extended_chords=False, strict_bass_intervals=False):
+_ENC_CACHE = {}
+
+
+def _template(shorthand, degrees, bass, fold, strict):
+    key = (shorthand, degrees, bass, fold, strict)
+    e = _ENC_CACHE.get(key)
+    if e is not None:
+        return e
     e = Enc()
-    e.root = e.bass = -1
-    e.tones = e.dontcare = frozenset()
-    e.strict_open = e.raise_optional = False
-    e.notes = frozenset()
-    if lab.kind == "N":
-        e.status, e.bitmap = "N", (0,) * 12
-        return e
-    if lab.kind == "X":
-        e.status, e.bitmap = "X", (-1,) * 12
-        return e
-    if lab.shorthand in UNSUPPORTED:
-        e.status, e.bitmap = "unsupported", None
-        e.notes = frozenset(["unsupported-shorthand"])
-        return e
-    tones, dontcare, b, bass_in, raise_optional, notes = _tail(lab.shorthand, lab.degrees, lab.bass,
-                                                               bool(reduce_extended_chords))
-    e.root = root_pc(lab)
+    e.root = -1
+    tones, dontcare, b, bass_in, raise_optional, notes = _tail(shorthand, degrees, bass, fold)
     e.bass = b
     e.tones = tones
     e.dontcare = dontcare
     e.raise_optional = raise_optional
     e.notes = notes
     e.strict_open = b in dontcare
-    if strict_bass_intervals and not bass_in and not e.strict_open:
+    if strict and not bass_in and not e.strict_open:
         e.status, e.bitmap = "bass-absent", None
-        return e
-    e.status = "ok"
-    e.bitmap = tuple(1 if (i in tones or i == b) else 0 for i in range(12))
+    else:
+        e.status = "ok"
+        e.bitmap = tuple(1 if (i in tones or i == b) else 0 for i in range(12))
+    if len(_ENC_CACHE) > 400000:
+        _ENC_CACHE.clear()
+    _ENC_CACHE[key] = e
+    return e
+
+
+def _fixed(status, bitmap, notes=()):
+    e = Enc()
+    e.status, e.bitmap = status, bitmap
+    e.root = e.bass = -1
+    e.tones = e.dontcare = frozenset()
+    e.strict_open = e.raise_optional = False
+    e.notes = frozenset(notes)
+    return e
+
+
+_ENC_N = _fixed("N", (0,) * 12)
+_ENC_X = _fixed("X", (-1,) * 12)
+_ENC_UNSUPPORTED = _fixed("unsupported", None, ["unsupported-shorthand"])
+
+
+def encode(lab, reduce_extended_chords=False, strict_bass_intervals=False):
+    """Model encoding of a parsed label (Enc objects are shared templates plus the root: do not mutate)."""
+    if lab.kind == "N":
+        return _ENC_N
+    if lab.kind == "X":
+        return _ENC_X
+    if lab.shorthand in UNSUPPORTED:
+        return _ENC_UNSUPPORTED
+    t = _template(lab.shorthand, lab.degrees, lab.bass, bool(reduce_extended_chords),
+                  bool(strict_bass_intervals))
+    e = Enc()
+    e.status = t.status
+    e.bitmap = t.bitmap
+    e.bass = t.bass
+    e.tones = t.tones
+    e.dontcare = t.dontcare
+    e.strict_open = t.strict_open
+    e.raise_optional = t.raise_optional
+    e.notes = t.notes
+    e.root = (NATURAL_PC[lab.letter] + lab.mods) % 12
     return e
 
 
